@@ -9,6 +9,7 @@
 use cglue::trait_group;
 mod defs;
 mod lt;
+mod pod;
 
 use cglue::arc::CArc;
 use cglue::boxed::{CBox, CSliceBox};
@@ -685,6 +686,19 @@ impl HistSut for Sut {
     }
 }
 
+/// one (container kind, path) cell of the plain-payload section, inside its own allocation window
+fn pod_case(kind: usize, path: usize) -> Option<CaseOut> {
+    alloc::begin();
+    let r = std::panic::catch_unwind(|| pod::run(kind, path));
+    let rep = alloc::end();
+    match r {
+        Err(_) => Some(CaseOut::bad("panic", "panicked".to_string())),
+        Ok(None) => None,
+        Ok(Some(Err((s, d)))) => Some(CaseOut::bad(s, d)),
+        Ok(Some(Ok(o))) => Some(if rep.clean() { CaseOut::ok(o) } else { CaseOut::bad(format!("alloc:{}:plain_payload", rep.signature()), format!("{} / {}: {}", pod::KINDS[kind], pod::PATHS[path], rep.describe())) }),
+    }
+}
+
 /// one operation sequence of the lifetime-bounded-children section, inside its own allocation window
 fn lt_case(ops: &[u8]) -> CaseOut {
     alloc::begin();
@@ -825,6 +839,9 @@ fn main() {
                 let pre: Vec<u8> = serde_json::from_value(case["pre"].clone()).unwrap();
                 return consume_last(&pre, case["kind"].as_u64().unwrap() as u8);
             }
+            if case.get("pod_kind").is_some() {
+                return pod_case(case["pod_kind"].as_u64().unwrap() as usize, case["pod_path"].as_u64().unwrap() as usize).unwrap_or(CaseOut::ok(0));
+            }
             if case.get("lt_ops").is_some() {
                 let ops: Vec<u8> = serde_json::from_value(case["lt_ops"].clone()).unwrap();
                 return lt_case(&ops);
@@ -878,6 +895,23 @@ fn main() {
         }),
         replay: mk_replay(),
     });
+    if !c07 {
+        sections.push(Section {
+            name: "plain_payloads",
+            explore: Box::new(|cx: &Cx| {
+                cx.rule("plain_payloads", "payloads without drop glue (arrays, integers, a plain struct) in CBox (from value / from Box), CSliceBox (len 0 / 3), single-trait objects and groups (with and without a CArc context) x path {drop, into_opaque, use, cast, cast + upcast, into!, clone}: every cell in its own allocation window; oracle: the allocator's - every block freed exactly once with the layout it was allocated with, nothing left");
+                for k in 0..pod::KINDS.len() {
+                    for p in 0..pod::PATHS.len() {
+                        let case = json!({"pod_kind": k, "pod_path": p, "kind": pod::KINDS[k], "path": pod::PATHS[p]});
+                        if let Some(out) = pod_case(k, p) {
+                            cx.record("plain_payloads", || case, &out);
+                        }
+                    }
+                }
+            }),
+            replay: mk_replay(),
+        });
+    }
     sections.push(Section {
         name: "lifetime_children",
         explore: Box::new(|cx: &Cx| {
